@@ -864,6 +864,23 @@ class Generator:
         return sig
 
     def emit_fn(self, out, rel, header, fn, unit, vacuity, indent, src_override=None):
+        """A contract whose structural anchors no longer fit the function (a loop / statement / rewrite place it names
+        is gone: the body was restructured) does not take the whole unit down: the function alone is emitted
+        `external_body` with its signature contract (assumed), recorded as `lost_anchor`, and the check treats it as
+        undecided by proof - every other function of the unit is still verified."""
+        mark = len(out.segs)
+        nrw = len(self.rewrites)
+        try:
+            return self._emit_fn(out, rel, header, fn, unit, vacuity, indent, None)
+        except ExtractError as e:
+            msg = str(e)
+            if not any(k in msg for k in ('lost anchor', 'R3 place', 'R3:', 'cannot find `in`', 'anchor |')):
+                raise
+            del out.segs[mark:]
+            del self.rewrites[nrw:]
+            return self._emit_fn(out, rel, header, fn, unit, vacuity, indent, msg)
+
+    def _emit_fn(self, out, rel, header, fn, unit, vacuity, indent, degrade):
         s = self.srcs[rel]
         sp = self.specs.get((rel, header, fn.name))
         if sp is None:
@@ -872,8 +889,9 @@ class Generator:
         sp.used = True
         fnid = sp.ident
         tagged = unit is None or bool(set(sp.props) & set(unit))
-        verified = (not sp.external) and (tagged or fnid in getattr(self, 'closure', set()))
-        rw = Rewriter(sp, self.rewrites)
+        in_scope = (not sp.external) and (tagged or fnid in getattr(self, 'closure', set()))
+        verified = in_scope and not degrade
+        rw = Rewriter(sp, self.rewrites) if not degrade else Rewriter(None, self.rewrites)
         if fn.body_open is None:
             raise ExtractError('%s: function %s has no body' % (rel, fn.name))
         # attributes + doc comments
@@ -893,6 +911,11 @@ class Generator:
                              'src_lines': [start_line, end_line], 'external': sp.external,
                              'origin': sp.origin, 'has_requires': bool(re.search(r'\brequires\b', sp.sig)),
                              'vac_exempt': 'const' in getattr(fn, 'quals', [])}
+        if degrade:
+            self.fninfo[fnid]['lost_anchor'] = degrade
+            self.fninfo[fnid]['in_scope'] = in_scope
+            out.src(indent + rw.apply(s[fn.body_open:fn.body_close + 1], 'body') + '\n\n', rel, fn.body_open, fnid)
+            return
         if vacuity and 'const' not in getattr(fn, 'quals', []):
             out.gen(indent + '{\n' + indent + '    proof { assert(false); }\n' + indent + '    ohsl_unreached()\n' + indent + '}\n\n',
                     'vacuity', fnid)
